@@ -92,6 +92,7 @@ def generate(rng: random.Random, tier: str) -> dict:
         cfg["prepped"] = rng.random() < 0.6
         cfg["copy_per_task"] = rng.random() < 0.4
         cfg["second_object"] = rng.random() < 0.35
+        cfg["second_same_key_other_bucket"] = rng.random() < 0.5
         cfg["overlap_lifecycles"] = cfg["second_object"] and T >= 2 and rng.random() < 0.5
         wl["part_base"] = rng.choice([0, 0, 95, 9990])
         cfg["kw"] = {}
@@ -106,7 +107,12 @@ def generate(rng: random.Random, tier: str) -> dict:
             rng.shuffle(order)
         wl["final_order"] = order
         wl["finaliser"] = rng.choice(["orig"] + list(range(T)))
-        wl["part_base"] = rng.choice([0, 0, 95, 9990])
+        wl["part_base"] = rng.choice([0, 0, 95, 9990, -1, 12340])  # -1: numbering starts at part 0
+        if rng.random() < 0.04:
+            k_ = rng.choice(sorted(wl["sizes"]))
+            wl["sizes"][k_] = (1 << 20) + 1  # beyond any small-file shortcut
+        cfg["dst_name"] = rng.choice(["final.bin"] * 3 + ["we ird%{name}[1] #2.tif", "\u00fcml\u00e4ut-\u6587.tif", ".hidden", "a.b.c.parts"])
+        cfg["dst_exists"] = rng.random() < 0.15
         cfg["keep_parts"] = rng.choice([None, None, False, True])
         cfg["place"] = rng.choice(["default", "base-exists", "base-nested", "base-relative", "xdev"])
         cfg["limits"] = _draw_limits(rng)
@@ -193,6 +199,7 @@ def _exec_s3(record: dict, ch: Chooser, log: Digest) -> Outcome:
         "scenario_cluster": int(scen == "cluster"),
         "overlapping_lifecycles": 0,
         "part_numbers_near_10000": int(wl.get("part_base", 0) >= 9000),
+        "same_key_in_two_buckets": int(bool(cfg.get("second_object") and cfg.get("second_same_key_other_bucket"))),
     }
     getattr(S, "_state", {}).clear()
     fakes.install_fake_s3(s3)
@@ -202,6 +209,12 @@ def _exec_s3(record: dict, ch: Chooser, log: Digest) -> Outcome:
     sizes = {int(k): v_ for k, v_ in wl["sizes"].items()}
     bucket = "bkt"
     keys = ["a/obj.tif"] + (["a/obj2.tif"] if cfg.get("second_object") else [])
+    # the second object may be the SAME key in another bucket: coordination state must not be shared
+    bucket_of = {k: bucket for k in keys}
+    if cfg.get("second_object") and cfg.get("second_same_key_other_bucket"):
+        keys = ["a/obj.tif", "a/obj.tif@other"]  # internal handle; real key below
+        bucket_of = {"a/obj.tif": bucket, "a/obj.tif@other": "other-bkt"}
+    real_key = {k: k.split("@")[0] for k in keys}
     receipts: Dict[str, Dict[int, Any]] = {k: {} for k in keys}
     sent: Dict[str, Dict[int, bytes]] = {k: {} for k in keys}
     nthreads = 0
@@ -211,7 +224,7 @@ def _exec_s3(record: dict, ch: Chooser, log: Digest) -> Outcome:
             client = fakes.FakeClient(cluster, "client0")
             writers: Dict[str, Any] = {}
             for key in keys:
-                mpu = S.MultiPartUpload(bucket, key)
+                mpu = S.MultiPartUpload(bucket_of[key], real_key[key])
                 if scen == "inproc":
                     cluster.default_client = None
                     writers[key] = mpu.writer(cfg.get("kw", {}))
@@ -314,7 +327,7 @@ def _exec_s3(record: dict, ch: Chooser, log: Digest) -> Outcome:
                     kernel.spawn(fprefix, lambda: fin_body(keys))
                     v = _drive(kernel, ch, log, res)
             if v is None:
-                v = _check_s3(s3, cluster, bucket, [k for k in keys if receipts[k]], sent, receipts, fin_results)
+                v = _check_s3(s3, cluster, bucket_of, real_key, [k for k in keys if receipts[k]], sent, receipts, fin_results)
         except HarnessError:
             raise
         except Exception as e:  # pylint: disable=broad-except
@@ -352,27 +365,29 @@ def _rle_head(ch: Chooser) -> List[Any]:
     return compress_schedule(ch.schedule_out)[:40]
 
 
-def _check_s3(s3: fakes.FakeS3, cluster, bucket, keys, sent, receipts, fin_results) -> Optional[Violation]:
+def _check_s3(s3: fakes.FakeS3, cluster, bucket_of, real_key, keys, sent, receipts, fin_results) -> Optional[Violation]:
     for key in keys:
-        creates = [c for c in s3.calls if c[0] == "create" and c[3] == key]
+        bkt, rk = bucket_of[key], real_key[key]
+        creates = [c for c in s3.calls if c[0] == "create" and c[2] == bkt and c[3] == rk]
         if len(creates) != 1:
             return Violation(PROP, "O18.1", "upload-initiated-%s-times" % ("zero" if not creates else "more-than-once"), {"key": key, "creates": [list(map(str, c)) for c in creates]})
         uid = creates[0][4]
-        part_calls = [c for c in s3.calls if c[0] == "part" and c[2] == key]
+        mine = {u for u, st in s3.uploads.items() if (st["bucket"], st["key"]) == (bkt, rk)}
+        part_calls = [c for c in s3.calls if c[0] == "part" and c[2] == rk and (c[3] in mine or c[3] not in s3.uploads)]
         wrong = [c for c in part_calls if c[3] != uid]
         if wrong:
             return Violation(PROP, "O18.2", "part-under-other-upload-id", {"key": key, "upload": uid, "wrong": [list(map(str, c)) for c in wrong[:5]]})
-        completes = [c for c in s3.calls if c[0] == "complete" and c[2] == key]
+        completes = [c for c in s3.calls if c[0] == "complete" and c[2] == rk and c[3] in mine]
         if len(completes) != 1 or completes[0][3] != uid:
             return Violation(PROP, "O18.2", "complete-missing-or-other-upload-id", {"key": key, "completes": [list(map(str, c)) for c in completes]})
         stored = s3.uploads[uid]["parts"]
         if {p: bytes(d) for p, d in stored.items()} != sent[key]:
             return Violation(PROP, "O18.2", "stored-parts-differ-from-sent", {"key": key, "stored": sorted(stored), "sent": sorted(sent[key])})
         want = b"".join(sent[key][p] for p in sorted(sent[key]))
-        if s3.objects.get((bucket, key)) != want:
+        if s3.objects.get((bkt, rk)) != want:
             return Violation(PROP, "O18.5", "object-differs-from-parts", {"key": key})
         fr = fin_results.get(key)
-        if not isinstance(fr, dict) or fr.get("Key") != key or fr.get("Bucket") != bucket:
+        if not isinstance(fr, dict) or fr.get("Key") != rk or fr.get("Bucket") != bkt:
             return Violation(PROP, "O18.5", "finalise-result", {"key": key, "result": repr(fr)[:200]})
     return None
 
@@ -382,8 +397,10 @@ def _mk_dirs(cfg: dict) -> Tuple[Path, Path, Optional[Any], List[Path], Optional
     _SEQ[0] += 1
     root = Path(tempfile.mkdtemp(prefix=f"odcsim-c18-{os.getpid()}-", dir="/dev/shm"))
     cleanup = [root]
-    dst = root / "out" / "final.bin"
+    dst = root / "out" / cfg.get("dst_name", "final.bin")
     dst.parent.mkdir()
+    if cfg.get("dst_exists"):
+        dst.write_bytes(b"stale content of an earlier run " * 3)
     place = cfg.get("place", "default")
     pb: Optional[Any] = None
     cwd = None
@@ -406,7 +423,7 @@ def _exec_sink(record: dict, ch: Chooser, log: Digest) -> Outcome:
     from odc.geo.cog._mpu_fs import MPUFileSink
 
     cfg, wl = record["config"], record["workload"]
-    probes = {"mkdir_lost_race": 0, "sink_cross_device": int(cfg.get("place") == "xdev"), "sink_empty_nonfirst_part": 0, "sink_pickled_copy": 0, "scenario_sink": 1, "sink_keep_parts": int(bool(cfg.get("keep_parts")))}
+    probes = {"mkdir_lost_race": 0, "sink_cross_device": int(cfg.get("place") == "xdev"), "sink_empty_nonfirst_part": 0, "sink_pickled_copy": 0, "scenario_sink": 1, "sink_keep_parts": int(bool(cfg.get("keep_parts"))), "sink_unusual_destination_name": int(cfg.get("dst_name", "final.bin") != "final.bin"), "sink_destination_exists": int(bool(cfg.get("dst_exists"))), "sink_part_number_zero_or_5_digits": int(int(wl.get("part_base", 0)) in (-1, 12340))}
     sizes = {int(k): v_ for k, v_ in wl["sizes"].items()}
     pbase = int(wl.get("part_base", 0))
     root, dst, pb, cleanup, cwd = _mk_dirs(cfg)
@@ -621,7 +638,7 @@ def candidates(record: dict) -> Iterable[dict]:
         c = copy.deepcopy(record)
         c["workload"]["part_base"] = 0
         yield c
-    for k, simple in (("overlap_lifecycles", False), ("second_object", False), ("copy_per_task", False), ("prepped", True), ("keep_parts", None), ("place", "default"), ("limits", {}), ("dst_as_str", False), ("kw", {})):
+    for k, simple in (("overlap_lifecycles", False), ("second_same_key_other_bucket", False), ("dst_name", "final.bin"), ("dst_exists", False), ("second_object", False), ("copy_per_task", False), ("prepped", True), ("keep_parts", None), ("place", "default"), ("limits", {}), ("dst_as_str", False), ("kw", {})):
         if k in cfg and cfg[k] != simple:
             c = copy.deepcopy(record)
             c["config"][k] = simple
